@@ -180,10 +180,48 @@ Theorem C18_lp_plus_hp_identity :
 Proof. exact lp_plus_hp. Qed.
 Print Assumptions C18_lp_plus_hp_identity.
 
-(* full statement not proved: bp(ts, b) = lp(hp(ts, b[0:2]), b[2:4]) as operators.
-   The band-pass response is the product of the two responses by construction in
-   the source; the operator identity additionally needs dft(idft X) = X (the
-   orthogonality in the other index) — not proved here, measured by the harness. *)
+(* The forward transform undoes the inverse transform (same hypotheses). *)
+Theorem C18_dft_idft :
+  forall (R : Type) (rO rI : R) (radd rmul rsub : R -> R -> R) (ropp : R -> R)
+         (rdiv : R -> R -> R) (rinv : R -> R),
+  field_theory rO rI radd rmul rsub ropp rdiv rinv (@eq R) ->
+  forall (N : nat) (om omi invN : R),
+  (0 < N)%nat ->
+  rpow R rI rmul om N = rI ->
+  rmul om omi = rI ->
+  (forall d, (0 < d < N)%nat -> rpow R rI rmul om d <> rI) ->
+  rmul invN (rsum R rO radd N (fun _ => rI)) = rI ->
+  forall (X : list R) (k : nat), (k < N)%nat ->
+  nth k (dft R rO rI radd rmul om N (idft R rO rI radd rmul omi invN N X)) rO = getr R rO X k.
+Proof. intros R rO rI radd rmul rsub ropp rdiv rinv Fth N om omi invN HN Hom Hinv Hprim HinvN.
+  exact (dft_idft R rO rI radd rmul rsub ropp rdiv rinv Fth N om omi invN HN Hom Hinv Hprim HinvN). Qed.
+Print Assumptions C18_dft_idft.
+
+(* Band-pass is the product: for every N and any two response vectors c1 (high-pass
+   of b[0:2]) and c2 (low-pass of b[2:4]) of N div 2 + 1 entries and a multiplicative
+   conjugation, the filter with response c1 * c2 (what bp builds) equals the filter
+   c2 applied to the output of the filter c1.  (Before np.real; for real data and
+   real responses the intermediate result is real.) *)
+Theorem C18_bp_is_product :
+  forall (R : Type) (rO rI : R) (radd rmul rsub : R -> R -> R) (ropp : R -> R)
+         (rdiv : R -> R -> R) (rinv : R -> R),
+  field_theory rO rI radd rmul rsub ropp rdiv rinv (@eq R) ->
+  forall (N : nat) (om omi invN : R),
+  (0 < N)%nat ->
+  rpow R rI rmul om N = rI ->
+  rmul om omi = rI ->
+  (forall d, (0 < d < N)%nat -> rpow R rI rmul om d <> rI) ->
+  rmul invN (rsum R rO radd N (fun _ => rI)) = rI ->
+  forall (conj : R -> R), (forall a b, conj (rmul a b) = rmul (conj a) (conj b)) ->
+  forall (c1 c2 ts r u v : list R),
+  Z.of_nat (length c1) = Z.of_nat N / 2 + 1 -> Z.of_nat (length c2) = Z.of_nat N / 2 + 1 ->
+  freq_filter R rO rI radd rmul om omi invN conj N (pmul R rmul c1 c2) ts = Some r ->
+  freq_filter R rO rI radd rmul om omi invN conj N c1 ts = Some u ->
+  freq_filter R rO rI radd rmul om omi invN conj N c2 u = Some v ->
+  forall k, (k < N)%nat -> nth k r rO = nth k v rO.
+Proof. intros R rO rI radd rmul rsub ropp rdiv rinv Fth N om omi invN HN Hom Hinv Hprim HinvN conj Hcm c1 c2 ts r u v.
+  exact (bp_product R rO rI radd rmul rsub ropp rdiv rinv Fth N om omi invN HN Hom Hinv Hprim HinvN conj c1 c2 ts r u v Hcm). Qed.
+Print Assumptions C18_bp_is_product.
 
 (* ---- fcn_cosine -------------------------------------------------------- *)
 (* Reals: for b0 < b1 the soft threshold is 0 up to b0, 1 from b1 on,
